@@ -39,7 +39,7 @@ pub fn want_for(pid: &str) -> fn(&str) -> bool {
 }
 
 /// C07 and C09 (type 28) only look at their own ME type; C10 skips TC19/28/1-4 (owned by others)
-fn eval_for(pid: &'static str) -> impl Fn(&[u8]) -> Sigs {
+pub fn eval_for(pid: &'static str) -> impl Fn(&[u8]) -> Sigs {
     let want = want_for(pid);
     move |buf: &[u8]| {
         if buf.len() >= 5 {
